@@ -98,7 +98,7 @@ func init() {
 					for i := 0; i < 4; i++ {
 						r2, m2 := replayScn(s, ans, false)
 						if s2, _ := c04Judge(s, r2, m2); s2 != sig {
-							w.Notes = append(w.Notes, "HARNESS ERROR: C04 violation did not reproduce: "+key)
+							w.Notes = append(w.Notes, "UNREPRODUCED: C04 violation did not reproduce: "+key)
 							return
 						}
 					}
